@@ -259,6 +259,90 @@ def transportRun (s : Setup) (shifts : Nat) (c : Col Rat) : List (Col Rat) :=
 def advectionRun {α : Type} (shifts : Nat) (c : Col α) : List (Col α) :=
   runWith (fun c => ({ c with cells := (c.first :: c.cells).dropLast } : Col α)) shifts c
 
+
+/-! ### stagnant zone (`-stagnant 1 exch_f th_m th_im`): first-order exchange between mobile cell `j` and immobile
+cell `j + 1 + count_cells`, as set up in `transport()` (`Rxn_mix_map`) and executed by `mix_stag` after every
+dispersive sub-mix (and once after the advective copy when `nmix = 0`). -/
+
+/-- the four fractions of a mobile/immobile pair: `Rxn_mix_map[j] = {j: mSelf, j_imm: mFromIm}`,
+`Rxn_mix_map[j_imm] = {j: imFromM, j_imm: imSelf}` -/
+structure StagW (α : Type) where
+  mSelf : α
+  mFromIm : α
+  imSelf : α
+  imFromM : α
+deriving Repr
+
+section stagw
+variable {α : Type} [Add α] [Sub α] [Mul α] [Div α] [OfNat α 1]
+
+/-- `b = th_m/(th_m+th_im); mix_f_imm = b - b*f; mix_f_m = mix_f_imm*th_im/th_m` with
+`f = exp(-exch_f*stagkin_time/(b*th_im))` supplied by the caller (transcendental) -/
+def stagFactors (f thM thIm : α) : α × α :=
+  let b := thM / (thM + thIm)
+  let imm := b - b * f
+  (imm * thIm / thM, imm)
+
+/-- the `cxxMix` entries for one pair; `wm`, `wim` are the water masses of the mobile and immobile solution -/
+def stagWeights (f thM thIm wm wim : α) : StagW α :=
+  let p := stagFactors f thM thIm
+  { mSelf := 1 - p.1, mFromIm := p.1 * wm / wim, imSelf := 1 - p.2, imFromM := p.2 * wim / wm }
+end stagw
+
+section stagrun
+variable {α : Type} [Add α] [Mul α]
+
+/-- `mix_stag` over all cells: mobile and immobile cell are both computed from the *old* pair (the results are parked
+in solutions −2 and −2−k and copied back afterwards); a mobile cell without stagnant solution is left alone -/
+def stagGo : List α → List α → List (Option (StagW α)) → List α × List α
+  | m :: ms, i :: is, some w :: ws =>
+    let r := stagGo ms is ws
+    ((w.mSelf * m + w.mFromIm * i) :: r.1, (w.imFromM * m + w.imSelf * i) :: r.2)
+  | m :: ms, i :: is, none :: ws =>
+    let r := stagGo ms is ws
+    (m :: r.1, i :: r.2)
+  | ms, is, _ => (ms, is)
+
+/-- mobile column + immobile cells (one per mobile cell; the value of an absent stagnant cell is never used) -/
+structure SCol (α : Type) where
+  mob : Col α
+  imm : List α
+deriving Repr
+
+def stagApply (sw : List (Option (StagW α))) (c : SCol α) : SCol α :=
+  let r := stagGo c.mob.cells c.imm sw
+  { mob := { c.mob with cells := r.1 }, imm := r.2 }
+
+/-- one dispersive sub-mix followed by the stagnant exchange -/
+def mixStagStep (ws : List (W α)) (sw : List (Option (StagW α))) (c : SCol α) : SCol α :=
+  stagApply sw { c with mob := mixStep ws c.mob }
+
+def iterS (f : SCol α → SCol α) : Nat → SCol α → SCol α
+  | 0, c => c
+  | k + 1, c => iterS f k (f c)
+
+/-- one transport step with a stagnant layer: `pre` × (sub-mix + exchange), advective copy of the mobile cells,
+one exchange if there are no sub-mixes at all but there is flow, then the remaining `nmix − pre` × (sub-mix + exchange) -/
+def transportStagStepWith (ws : List (W α)) (sw : List (Option (StagW α))) (nmix pre : Nat) (f : Flow) (c : SCol α) : SCol α :=
+  let c1 := iterS (mixStagStep ws sw) pre c
+  let c2 : SCol α := { c1 with mob := shift f c1.mob }
+  let c3 := if nmix = 0 ∧ f ≠ Flow.none then stagApply sw c2 else c2
+  iterS (mixStagStep ws sw) (nmix - pre) c3
+
+def runWithS (step : SCol α → SCol α) : Nat → SCol α → List (SCol α)
+  | 0, _ => []
+  | k + 1, c => let c' := step c; c' :: runWithS step k c'
+
+end stagrun
+
+/-- `transport()` with a stagnant layer for `shifts` steps (exchange fractions `sw` as built from `stagWeights`) -/
+def transportStagRun (s : Setup) (sw : List (Option (StagW Rat))) (shifts : Nat) (c : SCol Rat) : List (SCol Rat) :=
+  let p := initMix s
+  runWithS (transportStagStepWith p.weights sw p.nmix (preMixes s p.nmix) s.flow) shifts c
+
+/-- total inventory of a column with stagnant layer (weights `none` = no stagnant cell there, value ignored) -/
+def SCol.sum (c : SCol Rat) : Rat := c.mob.cells.sum + c.imm.sum
+
 /-- column inventory of one quantity (cells 1..n) -/
 def Col.sum (c : Col Rat) : Rat := c.cells.sum
 
